@@ -174,3 +174,15 @@ def run(ctx):
     ef = prog.const_by_name("END_FLASHLOAN")
     hx = (ef[0]["v"].get("mem") or {}).get("hex") if ef and ef[0]["v"] else None
     ctx.inst("C11.R5", "end-discriminator", hx == hashlib.sha256(b"global:lending_account_end_flashloan").digest()[:8].hex(), "END_FLASHLOAN is the discriminator of lending_account_end_flashloan", str(hx), None)
+
+
+_run_pre_leaves = run
+
+
+def run(ctx):
+    from .kernels import check_leaves
+    try:
+        _run_pre_leaves(ctx)
+    finally:
+        # leaf helpers this property's rules treat by name, pinned as complete path tables
+        check_leaves(ctx, "C11.K", ['account.get_flag', 'account.set_flag', 'account.unset_flag'])
